@@ -121,7 +121,11 @@ def h_cases(variant, n, T, L, P, thorough):
         axis, idx = menu[am]
         cells = slice_cells(axis, idx, T, L, P, times_v, lts_v)
         nin = len(inputs)
-        results = [D.get_scores(field_objs(names), k, axis, idx) for k in range(nin)]
+        # the inputs are queried in ascending or descending order (the first request loads the caches)
+        order = list(range(nin)) if S.choose("order", 2) == 0 else list(range(nin))[::-1]
+        results = [None] * nin
+        for k in order:
+            results[k] = D.get_scores(field_objs(names), k, axis, idx)
         for k in range(nin):
             for j, nmf in enumerate(names):
                 S.observe("r%d.%s" % (k, nmf), results[k][j])
